@@ -224,7 +224,7 @@ def run_verus_unit(name, tier, seed, extra_args=()):
         for ln in cand:
             if ln and 0 < ln <= len(u.linemap) and u.linemap[ln - 1]:
                 repo_lines.append('%s:%d' % u.linemap[ln - 1])
-        err = {'kind': kind, 'msg': d['msg'], 'unit_line': d['line'], 'fn': fn['fn'] if fn else None,
+        err = {'kind': kind, 'msg': d['msg'], 'unit_line': d['line'], 'fn': fn['fn'] if fn else None, 'fn_line': fn['unit_line'] if fn else None,
                'file': fn['file'] if fn else None, 'repo_lines': repo_lines, 'props': fn['props'] if fn else [],
                'text': '\n'.join(d['text'][:14])}
         res['errors'].append(err)
@@ -558,7 +558,7 @@ def check_property(pid, tier, seed, reg, results_cache):
             if e['fn'] is None:
                 lemma_fail.append(e)
             else:
-                failed_fns.setdefault(e['fn'], []).append(e)
+                failed_fns.setdefault((e['fn'], e.get('fn_line')), []).append(e)
         if lemma_fail:
             undecided.append({'unit': r['unit'], 'why': ['specification-side lemma failed (not repository code): ' + e['text'][:400] for e in lemma_fail]})
         for f in r['fns']:
@@ -569,7 +569,8 @@ def check_property(pid, tier, seed, reg, results_cache):
             if f['rendered'] == 'body':
                 obligations += 1
                 st = 'P'
-                errs = failed_fns.get(f['fn'], [])
+                # (by record, not by name: the same source function can be woven twice in a unit - total variants, R24)
+                errs = failed_fns.get((f['fn'], f.get('unit_line')), []) or [e for k_, v_ in failed_fns.items() if k_[0] == f['fn'] and k_[1] is None for e in v_]
                 if r['status'] == 'undecided' and not errs:
                     st = 'undecided'
                 elif errs and f.get('new_override'):
